@@ -108,6 +108,23 @@ def expected_dbcheck(plain):
     return tot, tp, lt, pp
 
 
+def _dbcheck(name, plain, out):
+    from osaca.db_interface import sanity_check
+    buf = io.StringIO()
+    sanity_check(name, verbose=False, output_file=buf)
+    rep = buf.getvalue()
+    m = re.findall(r"\((\d+)/(\d+)\) of instruction forms have no (throughput value|"
+                   r"latency value|port pressure assignment)", rep)
+    got = {k: (int(a), int(b)) for a, b, k in m}
+    tot, tp, lt, pp = expected_dbcheck(plain)
+    exp = {"throughput value": (tp, tot), "latency value": (lt, tot),
+           "port pressure assignment": (pp, tot)}
+    out["n"] += 3
+    if got != exp:
+        out["bad"].append(("db-check", "--db-check reports %r, the file contains %r"
+                           % (got, exp), -1))
+
+
 def work(item):
     name, do_cost, do_dbcheck = item
     out = {"n": 0, "bad": [], "costed": 0, "unsynth": 0, "entries": 0, "sample": None}
@@ -122,6 +139,8 @@ def work(item):
         out["entries"] = len(entries)
         is_isa = name.startswith("isa/")
         if not do_cost:
+            if do_dbcheck and not is_isa:
+                _dbcheck(name, plain, out)
             return item, out
         mm = drive.MachineModel(path_to_yaml=path)
         # the loaded representation carries the same data
@@ -186,20 +205,7 @@ def work(item):
                 out["bad"].append(("cost-crash", "entry #%d: analysing %r raises %s: %s"
                                    % (j, text, type(ex).__name__, str(ex)[:200]), j))
         if do_dbcheck and not is_isa:
-            from osaca.db_interface import sanity_check
-            buf = io.StringIO()
-            sanity_check(name, verbose=False, output_file=buf)
-            rep = buf.getvalue()
-            m = re.findall(r"\((\d+)/(\d+)\) of instruction forms have no (throughput value|"
-                           r"latency value|port pressure assignment)", rep)
-            got = {k: (int(a), int(b)) for a, b, k in m}
-            tot, tp, lt, pp = expected_dbcheck(plain)
-            exp = {"throughput value": (tp, tot), "latency value": (lt, tot),
-                   "port pressure assignment": (pp, tot)}
-            out["n"] += 3
-            if got != exp:
-                out["bad"].append(("db-check", "--db-check reports %r, the file contains %r"
-                                   % (got, exp), -1))
+            _dbcheck(name, plain, out)
     except Exception:
         out["bad"].append(("exception", traceback.format_exc()[-1500:], -1))
     return item, out
@@ -215,7 +221,7 @@ def run(ctx):
     items = []
     for n in all_names:
         cost = ctx.thorough or n in small
-        dbc = (ctx.thorough or n in ("zen1", "n1", "tx2")) and not n.startswith("isa/")
+        dbc = not n.startswith("isa/")
         items.append((n, cost, dbc))
     out = core.pmap(work, items, chunk=1)
     tot = {"entries": 0, "costed": 0, "unsynth": 0}
@@ -243,7 +249,7 @@ def run(ctx):
                 "port list], throughput/latency absent or >= 0, load/store tables and defaults; one "
                 "instruction synthesised per entry is costed through add_semantics + two balancing "
                 "passes + KernelDG (quick: the 6 small models and both ISA databases; thorough: all); "
-                "--db-check counts vs. counts from the plain file")
+                "--db-check counts of every model vs. counts from the plain file")
     res.exhaustive = True
     res.assumptions = ["entries whose operand pattern cannot be written as an instruction are counted "
                        "as unsynthesisable (well-formedness is still checked)"]
